@@ -158,12 +158,27 @@ def check(ctx, rep):
         loads = [c for c, t in eff.calls_of(lc, C) if t.kind == "ext" and t.ext in LOADERS]
         # helpers of the handler that loadcache delegates to (freshness predicate, file reader) are walked with it
         lc_helpers = [g for g, _, _, _ in helper_calls(prog, ctx.resolver, lc, C, depth=2) if g.cls is not None and prog.is_subclass(C, g.cls)]
+        # ... or to a small cache-file module / class of the handlers package
+        work_, seen_ = [lc] + list(lc_helpers), set()
+        while work_:
+            g_ = work_.pop()
+            if g_ in seen_:
+                continue
+            seen_.add(g_)
+            for c_, t_ in eff.calls_of(g_, C if g_.cls is not None and prog.is_subclass(C, g_.cls) else g_.cls):
+                if t_.kind in ("repo", "ctor") and len(t_.funcs) == 1 and t_.funcs[0] is not None and len(seen_) < 12:
+                    f2 = t_.funcs[0]
+                    if f2.module.name.startswith("pygopherd.handlers") and f2.name not in ("getfspath", "open", "stat", "__init__") \
+                            and (f2.cls is None or not prog.is_subclass(f2.cls, ctx.cls("handlers.base.VFS_Real") or f2.cls) or f2.cls is C):
+                        if f2 not in lc_helpers and f2 is not lc:
+                            lc_helpers.append(f2)
+                        work_.append(f2)
         for g in lc_helpers:
             loads.extend(c for c, t in eff.calls_of(g, C) if t.kind == "ext" and t.ext in LOADERS)
         if not loads:
             rep.fail("R10a", f"{lc.qualname}: load site", ctx.where(lc), "no deserialisation found in loadcache")
             continue
-        w = Walker(prog, ctx.resolver, fork_returns=True, inline=lambda fn, t, d: d < 3 and t.bound_cls is not None and fn in lc_helpers)
+        w = Walker(prog, ctx.resolver, fork_returns=True, inline=lambda fn, t, d: d < 3 and fn in lc_helpers, inline_by_name=True)
         problems = set()
         n_paths = 0
         for p in w.run(lc, C):
@@ -230,7 +245,9 @@ def check(ctx, rep):
                 f"with fromcache set the cache file is rewritten ({bad[0][:50]}): its age restarts on every hit and it can outlive its lifetime" if bad else "",
                 key=f"R10b|{sc.qualname}|rewrite")
         # and without fromcache it is written
-        w2 = Walker(prog, ctx.resolver, assumptions={"self.fromcache": FALSY})
+        w2 = Walker(prog, ctx.resolver, assumptions={"self.fromcache": FALSY}, inline_by_name=True,
+                    inline=lambda fn, t, d: d < 3 and fn.module.name.startswith("pygopherd.handlers") and fn.name not in ("open", "getfspath", "stat")
+                    and any(isinstance(x, ast.Call) and (dotted(x.func) or "").startswith("pickle.") for x in ast.walk(fn.node)))
         wrote = any(any(e.target.kind == "ext" and e.target.ext == "pickle.dump" for e in p.calls()) for p in w2.run(sc, C))
         rep.add("R10b", f"{sc.qualname}: written on a miss", wrote, ctx.where(sc), "" if wrote else "generated entries are never cached",
                 key=f"R10b|{sc.qualname}|write", nontrivial=False)
